@@ -181,6 +181,8 @@ def obtain_grid_or_torus(parsed, periodic):
         name = 'grid'
     try:
         dimensions = [int(x) for x in dimensions]
+        if len(dimensions) == 0:
+            raise ValueError
         for d in dimensions:
             if d <= 0:
                 raise ValueError
